@@ -46,6 +46,7 @@ type arrival struct {
 	tid       int
 	pos, kind string
 	exit      bool
+	parked    bool // an "enter" arrival of a spawned goroutine: it waits for a grant before its first instruction
 }
 
 type thread struct {
@@ -260,8 +261,14 @@ func Enter(tok int) {
 	if !active || tok < 0 {
 		return
 	}
-	register(tok)
-	arrivals <- arrival{tid: tok, kind: "enter"}
+	t := register(tok)
+	if freeFlag.Load() {
+		return
+	}
+	// a spawned goroutine does not execute anything before the model schedules it for the first time: it parks
+	// here until its first event in the trace is due (or until the free run)
+	arrivals <- arrival{tid: tok, kind: "enter", parked: true}
+	<-t.grant
 }
 
 func Exit(tok int) {
@@ -409,7 +416,11 @@ func Run(file string, entry func()) {
 						t.done = true
 						t.at = nil
 					} else if a.kind == "enter" {
-						// registered; its first real point follows
+						if a.parked {
+							aa := a
+							t.at = &aa
+						}
+						// (the harness goroutine itself is not parked: its first real point follows)
 					} else {
 						aa := a
 						t.at = &aa
@@ -428,6 +439,18 @@ func Run(file string, entry func()) {
 		a := waitArrive(ev.T, fmt.Sprintf("expected %s at %s", ev.Op, ev.Pos))
 		if diverged != "" {
 			break
+		}
+		if a != nil && a.kind == "enter" {
+			// first event of a spawned goroutine: let it start and run to its first point
+			mu.Lock()
+			t0 := threads[ev.T]
+			t0.at = nil
+			mu.Unlock()
+			t0.grant <- struct{}{}
+			a = waitArrive(ev.T, fmt.Sprintf("expected %s at %s (after start)", ev.Op, ev.Pos))
+			if diverged != "" {
+				break
+			}
 		}
 		if (ev.Op == "load" || ev.Op == "store") && (a == nil || a.pos != ev.Pos || a.kind != ev.Op) {
 			// a plain access the native code does not stop at separately (one statement-level point stands for all
@@ -505,7 +528,7 @@ func Run(file string, entry func()) {
 				t.at = nil
 				mu.Unlock()
 			}
-			if t != nil && !a.exit && a.kind != "enter" {
+			if t != nil && !a.exit && (a.kind != "enter" || a.parked) {
 				select {
 				case t.grant <- struct{}{}:
 				default:
